@@ -17,10 +17,10 @@ import (
 
 func init() {
 	ev.Register(&ev.Prop{
-		ID:    "C18",
-		Rule:  "texts: every token prefix of the corpus scripts (typing sequences, exhaustive), and generated texts as in C14 (corpus and grammar-complete scripts under random layouts, mutated by truncation, token deletion/duplication/swap/insertion/replacement, hostile splices, byte deletions, token soups, double edits) x every cursor position (every code-point offset of every line, plus one past the end of each line and one line past the end); oracle: no panic from CheckSource, GetSymbols, HoverOn, GotoDefinition; every diagnostic starts inside the text or at its end and does not end before it starts; two analyses of the same text give the same multiset of (range, severity, message) and the same set of symbols; non-trivial = the text has >= 1 parse error or >= 1 checker diagnostic",
-		New:   func() any { return &TextCase{} },
-		Check: checkC18,
+		ID:        "C18",
+		Rule:      "texts: every token prefix of the corpus scripts (typing sequences, exhaustive), and generated texts as in C14 (corpus and grammar-complete scripts under random layouts, mutated by truncation, token deletion/duplication/swap/insertion/replacement, hostile splices, byte deletions, token soups, double edits) x every cursor position (every code-point offset of every line, plus one past the end of each line and one line past the end); oracle: no panic from CheckSource, GetSymbols, HoverOn, GotoDefinition; every diagnostic starts inside the text or at its end and does not end before it starts; two analyses of the same text give the same multiset of (range, severity, message) and the same set of symbols; non-trivial = the text has >= 1 parse error or >= 1 checker diagnostic",
+		New:       func() any { return &TextCase{} },
+		Check:     checkC18,
 		Enumerate: enumC18,
 	})
 	Generators["C18"] = func(t *rapid.T, tier string) any {
